@@ -63,7 +63,7 @@ RULE = (
     'or special command; range or stack or rndwave; block or proxy; operator or child; multi-link vertex or > 1 '
     'bone); distinct = distinct snapshot.')
 ASSUMPTIONS = [
-    'pure-Python srctools from /repo/src', 'PYTHONHASHSEED=0 (set order feeds the SMD bone numbering)',
+    'pure-Python srctools from /repo/src', 'PYTHONHASHSEED pinned to VERIF_SEED (set order feeds the SMD bone numbering)',
     'DMX wire-level defects are C14\'s subject: PCF attribute types are limited to those C14 shows sound',
     'srctools.dmx.get_uuid is replaced by a harness counter during PCF writes (UUIDs are random by design)',
     'the VCD text reader is given Tokenizer(text) with default options, as the tree\'s own tests do',
